@@ -1,4 +1,5 @@
 import MpireModel.Model.Watch
+import MpireModel.Model.ApplyHandover
 import MpireModel.Model.Protocol
 import MpireModel.Proofs.Watch
 import MpireModel.Proofs.Protocol
@@ -33,6 +34,30 @@ theorem contained (n : Nat) (chunks : List (List Mpire.Proto.Tid)) (hnd : chunks
   ⟨fun t => Mpire.Proofs.exec_at_most_once n chunks hnd s h t,
    fun t ht => (Mpire.Proofs.delivered_were_executed n chunks s h t ht).2,
    fun hf hq => Mpire.Proofs.complete_delivers_all n chunks s h hf hq⟩
+
+/-! ### Known finding, formalised (see DESIGN.md §7 and corpus/C07/apply_dequeue_window.json)
+
+The apply hand-over is two queue entries.  The model below exhibits — and the implementation replays — the two ways in
+which a worker killed between taking the pill and announcing the job makes the property fail; outside that window the
+property holds (`apply_death_isolated_partial`). -/
+
+/-- witness 1: killed after taking the task, before announcing it — the task is lost for good. -/
+theorem known_finding_task_lost :
+    Mpire.Handover.run {} [.takePill, .takeTask, .kill, .deathHandled] = some { w := .lost, alive := true } := by
+  decide
+
+/-- witness 2: killed after taking the pill — the replacement runs the bare task entry as a map chunk. -/
+theorem known_finding_ran_as_chunk :
+    Mpire.Handover.run {} [.takePill, .kill, .deathHandled, .replacementTakes] = some { w := .ranAsChunk, alive := true } := by
+  decide
+
+/-- Outside the window — the worker is killed before it touched the hand-over, or after it announced the job — the job
+can still complete or has been failed with the death error: only the victim's own task is affected. -/
+theorem apply_death_isolated_partial (s s1 s2 : Mpire.Handover.St) (hw : s.w = .queuedBoth ∨ s.w = .announced) (ha : s.alive = true)
+    (h1 : Mpire.Handover.step s .kill = some s1) (h2 : Mpire.Handover.step s1 .deathHandled = some s2) :
+    Mpire.Handover.canComplete s2 = true ∧ (s.w = .announced → s2.w = .done false) ∧ (s.w = .queuedBoth → s2.w = .queuedBoth) := by
+  rcases hw with hw | hw <;> simp_all [Mpire.Handover.step, Mpire.Handover.canComplete] <;>
+    (obtain ⟨_, rfl⟩ := h1; simp_all [Mpire.Handover.step, Mpire.Handover.canComplete]; try (subst h2; simp))
 
 example : (drun {} [.signalAlive, .read, .read, .signalDead, .processExit, .read, .read, .read]).map (·.scan) =
     some (.verdict false) := by decide +kernel
